@@ -24,17 +24,28 @@ class Sim:
         self.current = None
         self.done = set()
         self.sleeps = []  # (name, t_request, duration requested, actual wake)
-        self.names = []
+        self.names = set()
         self.time_calls = 0
+        self.yield_p = 0.0
+        self.yield_until = float('inf')
+        self.yield_delays = [0.0]
+        self.yields = 0
 
     # -- TimeUtils interface ---------------------------------------------------
     def time(self):
         with self.lock:
             self.time_calls += 1
             self.now += self.eps
-            if self.tick:
-                return int(self.now / self.tick) * self.tick
-            return self.now
+            v = int(self.now / self.tick) * self.tick if self.tick else self.now
+            do_yield = (self.yield_p and threading.current_thread().name in self.names and self.now < self.yield_until
+                        and self.rng.random() < self.yield_p)
+            delay = self.rng.choice(self.yield_delays) if do_yield else 0.0
+        if do_yield:
+            # a preemption right after the clock was read: other streams may run (and read later times) before the caller
+            # uses the value it holds
+            self.yields += 1
+            self.park(self.now + delay)
+        return v
 
     def sleep(self, d):
         name = threading.current_thread().name
@@ -94,6 +105,7 @@ class Sim:
         with self.cond:
             for name, (start, fn) in bodies.items():
                 self.wake[name] = start
+                self.names.add(name)
         for name, (start, fn) in bodies.items():
             t = threading.Thread(target=wrap(name, start, fn), name=name, daemon=True)
             threads.append(t)
@@ -103,3 +115,41 @@ class Sim:
         for t in threads:
             t.join(join_timeout)
         return not any(t.is_alive() for t in threads)
+
+
+class SimLock:
+    """Lock for baton-scheduled threads: a contended acquire parks the caller (giving up the baton) until the holder
+    releases the lock, which makes the waiters runnable again at the current virtual time."""
+
+    def __init__(self, sim):
+        self.sim = sim
+        self.owner = None
+        self.waiters = []
+
+    def acquire(self, blocking=True, timeout=-1):
+        me = threading.current_thread().name
+        while self.owner is not None and self.owner != me:
+            if me not in self.sim.names:
+                import time as _t
+
+                _t.sleep(0.0001)
+                continue
+            self.waiters.append(me)
+            self.sim.park(float('inf'))
+        self.owner = me
+        return True
+
+    def release(self):
+        self.owner = None
+        with self.sim.cond:
+            for w in self.waiters:
+                if w in self.sim.wake:
+                    self.sim.wake[w] = self.sim.now
+            self.waiters = []
+
+    def __enter__(self):
+        self.acquire()
+        return self
+
+    def __exit__(self, *a):
+        self.release()
